@@ -120,7 +120,12 @@ Proof.
   - cbn [length]. rewrite seqZ_S.
     destruct (sc_timeline cf).
     + destruct (match ir_kind ir with RAudio => if idx =? 0 then true else false | _ => true end).
-      * destruct (ir_tab ir) as [t|]; [|discriminate].
+      * destruct (ir_tab ir) as [t|].
+        2:{ destruct (ir_kind ir); try discriminate. destruct (ref0tab cf); try discriminate.
+            destruct (idx =? 0); try discriminate.
+            match type of H with (do tl <- ?X ; _) = _ => destruct X as [tl| |] eqn:E; cbn [bind] in H; try discriminate end.
+            inversion H; subst. apply IH in E. destruct E as [E1 E2]. cbn [map mp_rep]. rewrite E1.
+            split; [reflexivity|constructor; [cbn; auto|exact E2]]. }
         match type of H with (do tl <- ?X ; _) = _ => destruct X as [tl| |] eqn:E; cbn [bind] in H; try discriminate end.
         inversion H; subst. apply IH in E. destruct E as [E1 E2]. cbn [map mp_rep]. rewrite E1.
         split; [reflexivity|constructor; [cbn; auto|exact E2]].
